@@ -249,7 +249,7 @@ func (*PlainPP) PostProcessAfterInitialization(c any, n string) (any, error)  { 
 func TestGraphs(t *testing.T) {
 	kit.Rec.Rule(rule)
 	rapid.Check(t, func(t *rapid.T) {
-		s := graph.Gen(t, graph.GenOpts{MinNodes: 2, MaxNodes: 6, Variants: "NNRLPE", Aliases: true, Selfs: true})
+		s := graph.Gen(t, graph.GenOpts{MinNodes: 2, MaxNodes: 6, Variants: "NNRLPEX", Aliases: true, Selfs: true})
 		// sometimes user post-processors take part: a plain one and one that proxies consistently at early-reference time
 		withPP := rapid.IntRange(0, 2).Draw(t, "withpp") == 0
 		wrapIdx := map[int]bool{}
